@@ -50,10 +50,12 @@ type HoldSpec struct {
 var blockedSeen atomic.Bool
 
 func progressBound() time.Duration {
+	// stretched on an oversubscribed machine (ev.LoadFactor is 1 on a machine that
+	// runs one check at a time)
 	if blockedSeen.Load() {
-		return 1500 * time.Millisecond
+		return time.Duration(float64(1500*time.Millisecond) * ev.LoadFactor())
 	}
-	return 5 * time.Second
+	return time.Duration(float64(5*time.Second) * ev.LoadFactor())
 }
 
 // relevantStacks returns the goroutines that wait on a lock or sit in the
